@@ -325,6 +325,8 @@ func (r *replayer) run(bi int, b behaviour) {
 	s.AdoptAt("ds.take.cas", "t")
 	s.AdoptAt("pm.trigger", "m")
 	s.AdoptAt("pm.msg", "m")
+	// hook points of group supervision on the same PID object are not part of this model
+	s.SkipPoints("sup.take", "sup.notify", "sup.submit", "sup.faults", "sup.exhausted", "sup.panicking", "sup.restart", "sup.restarted", "sup.spawn")
 	s.AdoptAt("sup.work", "u")
 	s.DetachAt("turn.end", "pm.trigger.end", "pm.msg.end", "sup.done")
 	s.OnlyPoints("pm.pop", "pv.lock", "pv.locked", "pm.relock", "pm.msg.go", "pm.msg.relock", "pv.ctl", "pv.suspend", "stop.lock")
